@@ -64,7 +64,9 @@ def enumerated(tier):
   # short exhaustive stream histories
   alphabet = [['open', 'OKAY'], ['open', 'CLSE'], ['dev_wrte', 0], ['dev_wrte', 1],
               ['dev_clse', 0], ['read', 0], ['read', 1], ['close', 0],
-              ['write', 0, 5, True], ['dev_illegal', 'CNXN']]
+              ['write', 0, 5, True], ['dev_illegal', 'CNXN'],
+              ['write', 0, 5, 'wrte_clse'], ['readn', 0, 8],
+              ['fault_clse', 'header'], ['fault_clse', 'payload']]
   m = 3 if tier == 'quick' else 4
   for length in range(1, m + 1):
     for seq in itertools.product(range(len(alphabet)), repeat=length):
@@ -122,6 +124,29 @@ DIRECTED = [
                          ['write', 0, 1, True]]},
     {'limit': 8, 'ops': [['open', 'OKAY'], ['dev_clse', 0], ['write', 0, 3, True],
                          ['read', 0]]},
+    # the service answers a write with its output and exits: the output is
+    # still read after the failed write
+    {'limit': 8, 'ops': [['open', 'OKAY'], ['write', 0, 5, 'wrte_clse'], ['read', 0],
+                         ['read', 0]]},
+    {'limit': 8, 'ops': [['open', 'OKAY'], ['open', 'OKAY'], ['dev_wrte', 1],
+                         ['write', 0, 300, 'wrte_clse'], ['read', 1], ['read', 0],
+                         ['read', 0], ['close', 0]]},
+    # sized reads: a short tail stays readable after the remote close
+    {'limit': 8, 'ops': [['open', 'OKAY'], ['dev_wrte', 0], ['dev_clse', 0],
+                         ['readn', 0, 40], ['read', 0], ['read', 0]]},
+    {'limit': 8, 'ops': [['open', 'OKAY'], ['dev_wrte', 0], ['dev_wrte', 0],
+                         ['readn', 0, 3], ['readn', 0, 3], ['dev_clse', 0], ['read', 0],
+                         ['read', 0]]},
+    # transport fault while a CLSE is written: the id is released all the same
+    # and later reads report the stream closed
+    {'limit': 8, 'ops': [['open', 'OKAY'], ['fault_clse', 'header'], ['close', 0],
+                         ['read', 0], ['close', 0], ['open', 'OKAY']]},
+    {'limit': 8, 'ops': [['open', 'OKAY'], ['fault_clse', 'payload'], ['dev_clse', 0],
+                         ['read', 0], ['read', 0], ['dev_clse', 0], ['read', 0]]},
+    {'limit': 3, 'ops': [['open', 'OKAY'], ['open', 'OKAY'], ['fault_clse', 'header'],
+                         ['close', 1], ['open', 'OKAY'], ['read', 1], ['read', 2]]},
+    {'limit': 8, 'ops': [['open', 'OKAY'], ['open', 'OKAY'], ['fault_clse', 'payload'],
+                         ['dev_clse', 1], ['read', 0], ['read', 1], ['read', 0]]},
 ]
 
 
@@ -145,13 +170,17 @@ def sampled(tier, rng):
         ops.append(['dev_wrte', rng.randrange(nopen)])
       elif r < .6:
         ops.append(['dev_clse', rng.randrange(nopen)])
+      elif r < .63:
+        ops.append(['fault_clse', rng.choice(['header', 'payload'])])
+      elif r < .66:
+        ops.append(['readn', rng.randrange(nopen), rng.choice([1, 3, 8, 40])])
       elif r < .8:
         ops.append(['read', rng.randrange(nopen)])
       elif r < .9:
         ops.append(['close', rng.randrange(nopen)])
       elif r < .97:
         ops.append(['write', rng.randrange(nopen), rng.choice([1, 5, 256, 300, 600]),
-                    rng.random() < .85])
+                    rng.choice([True] * 8 + [False, 'wrte_clse'])])
       else:
         ops.append(['dev_illegal', rng.choice(['CNXN', 'AUTH', 'SYNC', 'OPEN'])])
     h = {'k': 'streams', 'limit': limit, 'ops': ops}
@@ -292,6 +321,7 @@ class ModelExc(Exception):
 
 PROTOCOL = {'AdbProtocolError'}
 CLOSED = {'AdbStreamClosedError'}
+WRITEFAULT = {'UsbWriteFailedError'}
 
 
 class StreamModel:
@@ -304,6 +334,16 @@ class StreamModel:
     self.expect_host = {}  # (cmd, local, remote) -> count
     self.next_remote = 100
     self.poisoned = False
+    self.fault_clse = None   # armed one-shot transport fault at the next CLSE write
+
+  def _send_clse(self, s):
+    """The host answers / announces a close; the id is released before this."""
+    if self.fault_clse:
+      where, self.fault_clse = self.fault_clse, None
+      if where == 'payload':
+        self._host('CLSE', s['local'], s['remote'])
+      raise ModelExc(WRITEFAULT)
+    self._host('CLSE', s['local'], s['remote'])
 
   def _host(self, cmd, local, remote):
     key = (cmd, local, remote)
@@ -339,13 +379,13 @@ class StreamModel:
         elif cmd == 'CLSE':
           s['in_map'] = False
           if s['remote']:
-            self._host('CLSE', s['local'], s['remote'])
+            self._send_clse(s)
         return m
       if j is not None:
         if cmd == 'CLSE':
           j['in_map'] = False
           if j['remote']:
-            self._host('CLSE', j['local'], j['remote'])
+            self._send_clse(j)
         if cmd == 'WRTE':
           if not j['remote']:
             self.poisoned = True
@@ -406,12 +446,16 @@ class StreamModel:
     self.handle(s, m, handle_wrte=False)
     return s['state'] == 'open'
 
-  def read(self, s):
-    while not s['buf']:
+  def read(self, s, length=0):
+    while sum(map(len, s['buf'])) < max(1, length):
       m = self.demux(s)
       self.handle(s, m)
     data = ''.join(s['buf'])
     s['buf'] = []
+    if length:
+      data, rest = data[:length], data[length:]
+      if rest:
+        s['buf'] = [rest]
     return data
 
   def close(self, s):
@@ -421,7 +465,7 @@ class StreamModel:
     if s['in_map']:
       s['in_map'] = False
       if s['remote']:
-        self._host('CLSE', s['local'], s['remote'])
+        self._send_clse(s)
 
   def write_precheck(self, s):
     if not s['remote'] or s['state'] != 'open':
@@ -449,7 +493,7 @@ def run_streams(case):
   viol = []
   counters = {'stream_ops_compared': 0, 'ids_checked': 0, 'closes_checked': 0,
               'host_messages_compared': 0, 'streams_opened': 0,
-              'expected_exceptions': 0}
+              'expected_exceptions': 0, 'clse_write_faults_fired': 0}
   handles = []   # (real stream or None, model stream) per open op
   pending = {}
 
@@ -460,6 +504,14 @@ def run_streams(case):
       pending['stream'] = s
       if fed:
         dev.feed(*fed)
+    elif cmd == 'WRTE' and pending.get('ack') == 'wrte_clse':
+      # the service prints its answer and exits instead of acknowledging
+      ws = pending['wstream']
+      out = 'out%d;' % next(unique)
+      ws['data_fed'].append(out)
+      for m in (('WRTE', a1, a0, out), ('CLSE', a1, a0, '')):
+        model.inbound.append(m)
+        dev.feed(*m)
     elif cmd == 'WRTE' and pending.get('ack'):
       m = ('OKAY', a1, a0, '')
       model.inbound.append(m)
@@ -480,6 +532,14 @@ def run_streams(case):
 
   def compare(i, op, got, want):
     counters['stream_ops_compared'] += 1
+    if want[0] == 'exc' and want[1] == WRITEFAULT:
+      # The transport failed under this call.  Whether the error surfaces or is
+      # swallowed is not specified; the state afterwards is (later ops).
+      counters['clse_write_faults_fired'] += 1
+      if got[0] == 'exc' and got[1] not in WRITEFAULT:
+        bad('streams:%s-wrong-exception:%s-at-a-transport-write-fault' % (op[0], got[1]),
+            index=i, op=op, text=got[2])
+      return
     if want[0] == 'exc':
       counters['expected_exceptions'] += 1
       if got[0] != 'exc':
@@ -545,6 +605,10 @@ def run_streams(case):
         counters['streams_opened'] += 1
       continue
     # ops on an existing handle
+    if kind == 'fault_clse':
+      model.fault_clse = op[1]
+      dev.fail_write = ('CLSE', op[1])
+      continue
     k = op[1] if kind != 'dev_illegal' else None
     if kind == 'dev_illegal':
       m = (op[1], 7, 7, 'x')
@@ -579,10 +643,23 @@ def run_streams(case):
       compare(i, op, got, want)
       if got[0] == 'ok':
         s['data_read'].append(got[1])
+    elif kind == 'readn':
+      try:
+        want = ('ok', model.read(s, op[2]))
+      except ModelExc as e:
+        want = ('exc', e.names)
+      got = result_of(lambda: real.read(op[2], timeout_ms=20000))
+      compare(i, op, got, want)
+      if got[0] == 'ok':
+        s['data_read'].append(got[1])
     elif kind == 'close':
-      model.close(s)
+      try:
+        model.close(s)
+        want = ('ok', None)
+      except ModelExc as e:
+        want = ('exc', e.names)
       got = result_of(lambda: real.close(timeout_ms=20000))
-      compare(i, op, got, ('ok', None))
+      compare(i, op, got, want)
       counters['closes_checked'] += 1
     elif kind == 'write':
       _, _, size, ack = op
